@@ -19,7 +19,9 @@ RULE = (
     "massive) the gluon and light-quark rows are exactly 0 at or below the hadronic threshold, and above it they vanish for "
     "every basis function whose support lies entirely below x/zmax; (cc) for CC F_h the light-quark and gluon rows are exactly "
     "0 for chi >= 1 and below it the LO rows equal chi*w*pref*p_j(chi) with CKM weights, slow-rescaling prefactors (1, 1-lambda, "
-    "lambda for F2, FL, xF3) and the reference basis. Non-trivial = |d| <= 1e-6 (within 1e-6 of a threshold)."
+    "lambda for F2, FL, xF3) and the reference basis; (missing) FFNS/FONLL-FFNS F_light at NNLO, x=0.5, Q2 = 4 mc^2 (1+d) with d<=0: "
+    "bitwise the result of the same card with all heavy masses x1024 (the heavy-quark loop corrections on the light line vanish "
+    "below the pair threshold). Non-trivial = |d| <= 1e-6 (within 1e-6 of a threshold)."
 )
 ASSUMPTIONS = [
     "the exact-threshold class uses x=0.5 and dyadic masses so that Q2(1-x)/x and 4m2 are equal as floats; for |d| below 1e-12 "
@@ -28,7 +30,7 @@ ASSUMPTIONS = [
 ]
 BUDGET = {"quick": {"examples": 2400, "wall": 420}, "thorough": {"examples": 60000, "wall": 2400}}
 MANDATORY = {
-    t: ["nontrivial", "clause:kernel", "clause:nc", "clause:cc", "side:at", "side:below", "side:above", "delta:ulp", "delta:1e-6", "order:2", "cc:lo-row", "nc:support"]
+    t: ["nontrivial", "clause:kernel", "clause:nc", "clause:cc", "clause:missing", "side:at", "side:below", "side:above", "delta:ulp", "delta:1e-6", "order:2", "cc:lo-row", "nc:support"]
     for t in ("quick", "thorough")
 }
 SHRINK = {"quick": False, "thorough": True}
@@ -64,12 +66,28 @@ def apply_delta(value, d, gen):
 
 @st.composite
 def cases(draw, tier="quick"):
-    clause = draw(st.sampled_from(["kernel", "nc", "nc", "cc", "cc"]))
+    clause = draw(st.sampled_from(["kernel", "nc", "nc", "cc", "cc", "missing"]))
     d = draw(deltas())
     gen = round(draw(st.floats(0.01, 0.9)), 4)
     if clause == "kernel":
         n = len(heavy_entries())
         return {"clause": clause, "entry": draw(st.integers(0, n - 1)), "delta": d, "gen": gen}
+    if clause == "missing":
+        # F_light in FFNS at NNLO = massless part + 'missing' heavy-quark loops on the light-quark line: at or below the pair
+        # threshold of the lightest massive quark the result must be that of a card whose massive quarks are out of reach
+        m = draw(st.integers(4, 40)) / 4.0
+        d = draw(st.sampled_from(["0", "-ulp", "-1e-9", "-1e-6", "-0.1", "-gen"]))
+        kind = draw(st.sampled_from(["F2", "FL", "F3", "g1"]))
+        th = cards.theory(FNS=draw(st.sampled_from(["FFNS", "FONLL-FFNS"])), NfFF=3, PTO=2, mc=m, mb=2 * m, mt=4 * m)
+        grid = draw(cards.grids(nmin=5, nmax=8, umin=1.5, umax=3.0))
+        ob = cards.observables(prDIS=draw(st.sampled_from(["NC", "EM"])))
+        cards.apply_grid(ob, grid)
+        x = 0.5
+        q2 = apply_delta(4.0 * m * m * x / (1.0 - x), d, gen)
+        name = f"{kind}_light"
+        ob["observables"] = {name: [{"x": x, "Q2": q2}]}
+        return {"clause": clause, "theory": th, "obs": ob, "delta": d, "gen": gen, "h": "charm", "m": m,
+                "meta": {"name": name, "kind": kind, "scheme": th["FNS"], "process": ob["prDIS"], "pto": 2, "heavyness": "light"}}
     h = draw(st.sampled_from(["charm", "bottom", "top"]))
     nfff = draw(st.integers(3, HVQ[h][0] - 1))
     scheme = draw(st.sampled_from(["FFNS", "FONLL-FFNS"]))
@@ -146,6 +164,17 @@ def check_case(case):
             return v
         th, ob, meta = case["theory"], case["obs"], case["meta"]
         name, h = meta["name"], case["h"]
+        if cl == "missing":
+            v.label("order:2")
+            far = dict(th, mc=th["mc"] * 1024.0, mb=th["mb"] * 1024.0, mt=th["mt"] * 1024.0)
+            ra = run.tensors(run.run(th, ob)[name][0])
+            rb = run.tensors(run.run(far, ob)[name][0])
+            for k in ra:
+                if not np.array_equal(ra[k], rb[k]):
+                    v.fail(f"C09:missing-below-threshold:{meta['kind']}", f"{name} ({meta['scheme']}) at x=0.5, Q2={ob['observables'][name][0]['Q2']!r}, mc={th['mc']}: at/below the charm pair threshold key {k} differs from the run with unreachable heavy quarks by {run.maxabs(ra[k]-rb[k]):.3e}")
+            if v.nontrivial:
+                v.label("nontrivial")
+            return v
         hq = HVQ[h][0]
         kin = ob["observables"][name][0]
         x, q2, m = kin["x"], kin["Q2"], case["m"]
